@@ -174,13 +174,18 @@ void harness(void)
 #else
 	{
 		/* three fixed buffers covering words, punctuation, blanks, tabs, 2-byte and double-width characters, an empty line */
-		static const char *bufs[3][NLN] = {
+		static const char *bufs[4][NLN] = {
 			{"ab.c  d", "", "\ta (a) \xc3\xa9\xe4\xb8\xad" "b"},
 			{"\xe4\xb8\xad\t\xc3\xa9. a", " x.", "a"},
 			{"a", "(a.b) [\xc3\xa9] a", ""},
+			{"\xd8\xa7\xd8\xa8\xd8\xac\xd8\xaf", "ab", "\xd8\xa8"},	/* right-to-left lines (only with BUFSEL 3: h and l follow the display) */
 		};
 		int b = symx_u8("buffer");
+#ifdef BUFSEL
+		symx_assume(b < 4);
+#else
 		symx_assume(b < 3);
+#endif
 #ifdef BUFSEL
 		symx_assume(b == BUFSEL);
 #endif
@@ -234,8 +239,10 @@ void harness(void)
 		kn += sprintf(keys + kn, "%s", mots[m]);
 		col = colof(r0, o0);
 		switch (m) {
-		case 0: ro = ro - c < 0 ? 0 : ro - c; break;
-		case 1: ro = clampo(rr, ro + c); break;
+		/* h and l go to the character displayed to the left / right: in a line whose base direction is right to left
+		 * (it starts with an Arabic letter) that is the next / previous character of the text */
+		case 0: if ((unsigned char) text[rr][0] == 0xd8) ro = clampo(rr, ro + c); else ro = ro - c < 0 ? 0 : ro - c; break;
+		case 1: if ((unsigned char) text[rr][0] == 0xd8) ro = ro - c < 0 ? 0 : ro - c; else ro = clampo(rr, ro + c); break;
 		case 2: ro = 0; break;
 		case 3: ro = indent(rr); break;
 		case 4: if (cnt) asserted = 0; ro = nch[rr] ? nch[rr] - 1 : 0; break;
